@@ -330,7 +330,7 @@ def _still_fails(family, spec, want_sig, same_clause_only=True):
     return None
 
 
-def shrink(family, spec, vdict, budget=120, wall_s=240):
+def shrink(family, spec, vdict, budget=80, wall_s=75):
     """Delta debugging over the explicit night: drop ops, drop units / counties / states, fewer levels,
     aggregates, estimands -- keeping only candidates that fail with the same (clause, flags)."""
     want = sig_of_dict(vdict)
